@@ -78,7 +78,9 @@ Y0Val(s, i)     == IF s.srcs[i] = "y0" THEN s.x0[i] ELSE Decoy2
 \* the initial value the simulation behind a residual starts from, for candidate initial values c
 EffInit(s, c, i) == IF Fitted(s, i) THEN c[i] ELSE IF InY0(s, i) THEN Y0Val(s, i) ELSE ModelInit(s, i)
 
-Blank == [shape |-> "", n |-> 0, jt |-> <<>>, jc |-> <<>>, x0 |-> <<>>, x0c |-> <<>>, srcs |-> <<>>,
+\* fitk: the rate constants are among the fitted names.  FALSE: p0 holds ONLY INITIAL VALUES (variable names); the rate
+\* constants stay what the model holds (the truth) and the residual must still follow the candidate's initial values.
+Blank == [shape |-> "", n |-> 0, jt |-> <<>>, jc |-> <<>>, x0 |-> <<>>, x0c |-> <<>>, srcs |-> <<>>, fitk |-> TRUE,
           times |-> <<>>, prot |-> <<>>, off |-> <<>>]
 
 HasInits(shape) == shape \in {"tc", "ptc", "ssc"}        \* shapes whose prediction depends on the initial values
@@ -103,11 +105,15 @@ AddTrue == /\ ph = "shape" /\ Len(sc.jt) < sc.n
            /\ UNCHANGED ph
 ToCand  == /\ ph = "shape" /\ Len(sc.jt) = sc.n
            /\ \E ss \in (IF ~HasInits(sc.shape) THEN {[i \in 1..sc.n |-> "model"]}
-                         ELSE IF sc.n = 1 THEN {<<x>> : x \in Srcs1} ELSE Srcs2) : sc' = [sc EXCEPT !.srcs = ss]
+                         ELSE IF sc.n = 1 THEN {<<x>> : x \in Srcs1} ELSE Srcs2) :
+                 \E fk \in BOOLEAN :
+                    /\ (~fk => \E i \in 1..sc.n : ss[i] \in {"p0", "p0y0"})       \* something must be fitted
+                    /\ sc' = [sc EXCEPT !.srcs = ss, !.fitk = fk]
            /\ ph' = "cand"
 AddCand == /\ ph = "cand" /\ Len(sc.jc) < sc.n
            /\ LET i == Len(sc.jc) + 1
-              IN  \E j \in Cands(sc.shape, sc.n), x \in (IF Fitted(sc, i) THEN CandInits(sc.shape) ELSE {sc.x0[i]}) :
+              IN  \E j \in (IF sc.fitk THEN Cands(sc.shape, sc.n) ELSE {sc.jt[i]}),
+                     x \in (IF Fitted(sc, i) THEN CandInits(sc.shape) ELSE {sc.x0[i]}) :
                      sc' = [sc EXCEPT !.jc = Append(@, j), !.x0c = Append(@, x)]
            /\ UNCHANGED ph
 Finish  == /\ ph = "cand" /\ Len(sc.jc) = sc.n
